@@ -673,6 +673,11 @@ impl Explorer {
             if matches!(model_out, Out::Panic(_)) && !is_cb_panic {
                 inherit.push(7);
             }
+            // "... and accept all others": an index-taking call that panics where String accepts the index
+            let index_op = matches!(op, Op::Insert { .. } | Op::InsertStr { .. } | Op::Remove { .. } | Op::Truncate { .. });
+            if index_op && matches!(real_out, Out::Panic(_)) && !matches!(model_out, Out::Panic(_)) && failed + refused == 0 {
+                inherit.push(7);
+            }
             if is_cb_panic {
                 inherit.push(18);
             }
